@@ -16,8 +16,9 @@ import (
 )
 
 type Task struct {
-	ID      int `json:"id"`
-	SleepMs int `json:"sleep_ms,omitempty"`
+	ID      int  `json:"id"`
+	SleepMs int  `json:"sleep_ms,omitempty"`
+	Dep     bool `json:"dep,omitempty"` // mode "dep": parks until all Dep tasks of its round have started
 }
 
 type Round struct {
@@ -53,8 +54,8 @@ func gen(prop, tier string, r *rand.Rand, idx int) any {
 	default:
 		sc.Mode = "free"
 	}
-	if prop == "C08" && r.IntN(2) == 0 {
-		sc.Mode = "barrier"
+	if prop == "C08" {
+		sc.Mode = []string{"barrier", "dep", "dep", "free"}[r.IntN(4)]
 	}
 	nr := 1 + r.IntN(3)
 	id := 0
@@ -93,6 +94,24 @@ func gen(prop, tier string, r *rand.Rand, idx int) any {
 		sc.Rounds = append(sc.Rounds, rd)
 	}
 	sc.MainSubmits = r.IntN(2) == 0
+	if sc.Mode == "dep" {
+		// up to max(size,1) mutually dependent tasks per round, anywhere in the round
+		for ri := range sc.Rounds {
+			var all []*Task
+			for si := range sc.Rounds[ri].Subs {
+				for ti := range sc.Rounds[ri].Subs[si] {
+					all = append(all, &sc.Rounds[ri].Subs[si][ti])
+				}
+			}
+			k := min(eff, len(all))
+			if k > 0 {
+				k = 1 + r.IntN(k)
+				for _, i := range r.Perm(len(all))[:k] {
+					all[i].Dep = true
+				}
+			}
+		}
+	}
 	return sc
 }
 
@@ -175,6 +194,17 @@ func run(t *testing.T, prop string, x any, cfg simrt.Config) *eng.Outcome {
 	}
 	// harness state: mutated only inside release handlers (scheduler goroutine)
 	started := make([]int, len(sc.Rounds))
+	depIn := make([]int, len(sc.Rounds))
+	depNeed := make([]int, len(sc.Rounds))
+	for ri, rd := range sc.Rounds {
+		for _, s := range rd.Subs {
+			for _, tk := range s {
+				if tk.Dep {
+					depNeed[ri]++
+				}
+			}
+		}
+	}
 	roundOf := map[int]int{}
 	total := 0
 	need := make([]int, len(sc.Rounds))
@@ -191,8 +221,18 @@ func run(t *testing.T, prop string, x any, cfg simrt.Config) *eng.Outcome {
 	}
 	body := func(tk Task) {
 		ri := roundOf[tk.ID]
-		simrt.EmitThen(simrt.Event{Kind: "task_start", I: tk.ID, N: ri}, func() { started[ri]++ })
+		simrt.EmitThen(simrt.Event{Kind: "task_start", I: tk.ID, N: ri}, func() {
+			started[ri]++
+			if tk.Dep {
+				depIn[ri]++
+			}
+		})
 		switch sc.Mode {
+		case "dep":
+			if tk.Dep {
+				simrt.EmitWhen(simrt.Event{Kind: "task_end", I: tk.ID, N: ri}, func() bool { return depIn[ri] >= depNeed[ri] }, nil)
+				return
+			}
 		case "barrier":
 			simrt.EmitWhen(simrt.Event{Kind: "task_end", I: tk.ID, N: ri}, func() bool { return started[ri] >= need[ri] }, nil)
 			return
@@ -297,7 +337,7 @@ func oracle(prop string, sc *Scn, eff, total int, roundOf map[int]int, res *simr
 		if over != nil {
 			return over
 		}
-		if res.Deadlock && sc.Mode == "barrier" && !closed {
+		if res.Deadlock && (sc.Mode == "barrier" || sc.Mode == "dep") && !closed {
 			return viol("lower", "barrier workload made no progress: fewer than min(size,n) tasks run simultaneously; blocked: %v", res.Blocked)
 		}
 		if len(res.Panics) > 0 {
